@@ -208,7 +208,7 @@ def preprocess(work, src, defs, undefs, extra, out_i, cc="gcc"):
     cmd += [src, "-o", out_i + ".raw"]
     rc, out, _, _, _ = run_cmd(cmd)
     if rc != 0:
-        raise BuildError("preprocess failed: %s\n%s" % (" ".join(cmd), out[-3000:]))
+        raise BuildError("preprocess failed for %s: %s" % (src, out[-700:]))
     text = open(out_i + ".raw", errors="replace").read()
     try:
         res, n = asm2c.rewrite(text)
@@ -242,7 +242,7 @@ def compile_gb(work, src, defs=None, undefs=(), extra=()):
             cmd = ["goto-cc", "-std=gnu11", "-c", base + ".i", "-o", base + ".gb"]
             rc, out, _, _, _ = run_cmd(cmd)
             if rc != 0:
-                raise BuildError("goto-cc failed on %s:\n%s" % (src, out[-3000:]))
+                raise BuildError("goto-cc failed on %s: %s" % (src, out[-700:]))
         except BuildError as e:
             ent["err"] = str(e)
             raise
@@ -321,7 +321,7 @@ def build_ob(work, ob, tag):
     prog = os.path.join(work.dir, "ob-%s.gb" % tag)
     rc, out, _, _, _ = run_cmd(["goto-cc"] + gbs + ["-o", prog])
     if rc != 0:
-        raise BuildError("link failed for %s:\n%s" % (ob.name, out[-3000:]))
+        raise BuildError("link failed for %s: %s" % (ob.name, out[-700:]))
     for args in ob.instrument:
         nxt = prog + ".i.gb"
         rc, out, _, _, _ = run_cmd(["goto-instrument"] + args + [prog, nxt])
@@ -421,7 +421,11 @@ def run_ob(work, ob, idx):
     r.failed = real
     r.prog = prog
     unw = [p for p in real if ".unwind." in p.get("property", "")]
-    if unw:
+    nobody = [p for p in real if ".no-body." in p.get("property", "")]
+    if nobody:
+        r.status = "inconclusive"
+        r.reason = "harness incomplete, no body for: " + "; ".join(p["property"] for p in nobody[:6])
+    elif unw:
         r.status = "inconclusive"
         r.reason = "unwinding bound too small: " + "; ".join(p["property"] for p in unw[:6])
     elif real:
@@ -763,7 +767,7 @@ def run_check(prop, obs, tier, seed, level_text="", assumptions=(), outside=(),
            wall, sum(r.solver_s for r in results)))
     rc = 0
     for r in inconclusive:
-        log("INCONCLUSIVE obligation=%s %s" % (r.ob.name, r.reason[:1500]))
+        log("INCONCLUSIVE obligation=%s %s" % (r.ob.name, r.reason[:900]))
         rc = 2
     for r in violations:
         log("  failed: %s -> %s" % (r.ob.name, r.reason[:600]))
